@@ -145,6 +145,7 @@ type VMModel struct {
 	Prims                     map[*types.Func]string // *VM methods recognised as primitives: push pop peek arg const scope
 	VMType                    *types.Named
 	Fields                    map[string]*types.Var
+	Nested                    map[*types.Var]*types.Var // field of a record-typed VM field -> that VM field
 	Problems                  []string
 	EnvParam, ProgParam       types.Object
 	Defs                      *LocalDefs // single-definition locals of package vm (matchers look through them)
@@ -181,6 +182,18 @@ func BuildVMModel(p *core.Program) (*VMModel, string) {
 	}
 	for i := 0; i < st.NumFields(); i++ {
 		m.Fields[st.Field(i).Name()] = st.Field(i)
+		// the fields of a record kept in a field (`budget allocBudget{used, limit}`) belong to
+		// the machine's state like its own
+		if nt, ok := st.Field(i).Type().(*types.Named); ok && nt.Obj().Pkg() == m.Prog.Pkg("vm").Types {
+			if ns, ok := nt.Underlying().(*types.Struct); ok {
+				if m.Nested == nil {
+					m.Nested = map[*types.Var]*types.Var{}
+				}
+				for j := 0; j < ns.NumFields(); j++ {
+					m.Nested[ns.Field(j)] = st.Field(i)
+				}
+			}
+		}
 	}
 	m.Run = p.FuncDecl("vm", "VM", "Run")
 	if m.Run == nil || m.Run.Body == nil {
@@ -355,6 +368,11 @@ func (m *VMModel) classifyPrims() {
 					if m.isField(info, s.X, "scopes") {
 						readScopes++
 					}
+				case *ast.CallExpr:
+					// the top read through the peek primitive (`value := m.current()`)
+					if f := CalleeOf(info, s); f != nil && m.Prims[f] == "peek" {
+						readTop++
+					}
 				case *ast.SendStmt, *ast.GoStmt:
 					other++
 				}
@@ -429,6 +447,9 @@ func (m *VMModel) inferRoles() {
 				return f
 			}
 		}
+		if m.Nested[f] != nil {
+			return f
+		}
 		return nil
 	}
 	isInt := func(f *types.Var) bool {
@@ -445,15 +466,50 @@ func (m *VMModel) inferRoles() {
 			if !ok || len(as.Lhs) != len(as.Rhs) || as.Tok != token.ASSIGN {
 				return true
 			}
+			pkgVar := func(e ast.Expr) bool {
+				id, ok := Unparen(e).(*ast.Ident)
+				if !ok {
+					return false
+				}
+				v, ok := info.Uses[id].(*types.Var)
+				return ok && v.Parent() == m.Prog.Pkg("vm").Types.Scope()
+			}
 			for i, l := range as.Lhs {
 				f := fieldOf(l)
-				if f == nil || !isInt(f) {
+				if f == nil {
 					continue
 				}
-				if id, ok := Unparen(as.Rhs[i]).(*ast.Ident); ok {
-					if v, ok := info.Uses[id].(*types.Var); ok && v.Parent() == m.Prog.Pkg("vm").Types.Scope() {
-						limit = f
+				// vm.budget = allocBudget{limit: MemoryBudget}: the record's field that receives
+				// the package-level variable
+				if cl, ok := Unparen(as.Rhs[i]).(*ast.CompositeLit); ok {
+					if st, ok := f.Type().Underlying().(*types.Struct); ok {
+						for k, el := range cl.Elts {
+							var nf *types.Var
+							val := el
+							if kv, ok := el.(*ast.KeyValueExpr); ok {
+								val = kv.Value
+								if kid, ok := kv.Key.(*ast.Ident); ok {
+									for j := 0; j < st.NumFields(); j++ {
+										if st.Field(j).Name() == kid.Name {
+											nf = st.Field(j)
+										}
+									}
+								}
+							} else if k < st.NumFields() {
+								nf = st.Field(k)
+							}
+							if nf != nil && m.Nested[nf] == f && isInt(nf) && pkgVar(val) {
+								limit = nf
+							}
+						}
 					}
+					continue
+				}
+				if !isInt(f) {
+					continue
+				}
+				if pkgVar(as.Rhs[i]) {
+					limit = f
 				}
 			}
 			return true
@@ -662,7 +718,7 @@ func (it *vmInterp) origin(hp *HandlerPath, e ast.Expr) *Origin {
 			case "pop":
 				return &Origin{Kind: "pop", Event: id, PopIdx: popIndex(hp, id), Expr: e}
 			case "peek", "const", "arg", "scope.get":
-				return &Origin{Kind: ev.Kind, Event: id, Expr: e}
+				return &Origin{Kind: ev.Kind, Event: id, Expr: e, Assert: ev.Assert}
 			case "call":
 				return &Origin{Kind: "call", Event: id, Expr: e}
 			}
@@ -836,7 +892,12 @@ func (it *vmInterp) run(atoms []Atom, hp *HandlerPath) {
 				it.callEv[call] = it.emit(hp, VMEvent{Kind: "arg", Node: call})
 				continue
 			case "const":
-				it.callEv[call] = it.emit(hp, VMEvent{Kind: "const", Node: call})
+				ev := VMEvent{Kind: "const", Node: call}
+				// a typed operand decoder (`func (vm *VM) call() Call`) asserts inside
+				if t := info.TypeOf(call); t != nil && !isEmptyInterface(t) {
+					ev.Assert = t
+				}
+				it.callEv[call] = it.emit(hp, ev)
 				continue
 			case "scope":
 				it.callEv[call] = it.emit(hp, VMEvent{Kind: "scope.get", Node: call})
